@@ -74,7 +74,7 @@ namespace fsw
     {
         bool has_v = false, has_str = false;
         uint64_t v = 0;
-        std::u16string s16;   // strings are compared as sequences of 16-bit units (char widened)
+        std::u32string s16;   // strings are compared as sequences of 32-bit units (characters widened)
         template <class CT> void set_str(const CT* p, size_t n) { has_str = true; s16.assign(p, p + n); }
     };
 
@@ -217,7 +217,7 @@ namespace fsw
             if (sel < 11) return static_cast<CT>('a' + raw % 4);
             if (sel == 11) return static_cast<CT>(' ');
             if (sel == 12) return static_cast<CT>(0x80 + raw % 0x80);
-            if (sel == 13 && !is_char) return static_cast<CT>(0x100 + raw % 0xF000);
+            if (sel == 13 && !is_char) return static_cast<CT>(sizeof(CT) >= 4 && (raw & 1) ? 0x10000 + raw % 0xFFFFF : 0x100 + raw % 0xF000);
             if (sel == 14 && allow_nul && nul_on) return CT();
             return static_cast<CT>('w' + raw % 4);
         }
@@ -238,12 +238,10 @@ namespace fsw
             if (terminated) p[s.size()] = CT();
             return p;
         }
-        // rare: overloads with an open aliasing finding (known_findings.json) alias only in one of eight
-        // aliasing runs, so that the finding stays exercised without starving what lies behind it
-        int partner(int s, uint64_t raw, bool may_alias = true, bool rare = false)
+        int partner(int s, uint64_t raw, bool may_alias = true)
         {
             int p = static_cast<int>(raw % 3);
-            if (p == s && !(alias_on && may_alias && (!rare || (raw >> 8) % 8 == 0))) p = (s + 1) % 3;
+            if (p == s && !(alias_on && may_alias)) p = (s + 1) % 3;
             return p;
         }
 
@@ -343,7 +341,7 @@ namespace fsw
                 if (changes) { if (trial != model[s] || is_ctor) ++run.changing; model[s] = trial; }
                 settle_alt(s);
                 if (xr.has_v) run.dig(xr.v);
-                if (xr.has_str) run.dig(xr.s16.data(), xr.s16.size() * 2);
+                if (xr.has_str) run.dig(xr.s16.data(), xr.s16.size() * 4);
             }
             if (model[s].size() == N) SIM_PROBE("reached_len_N");
             check_all();
@@ -517,10 +515,15 @@ namespace fsw
             int s = st.actor % 3;
             int pi = partner(s, st.c);
             FS_VARIANTS("count_ch", "self_pos_count", "self_pos", "ptr_count", "ptr", "ilist", "range", "self", "self_move",
-                        "string", "string_pos_count", "string_pos");
+                        "string", "string_pos_count", "string_pos", "ptr_count_alias", "ptr_alias");
+            if (v == 12 && !alias_on) v = 3;
+            if (v == 13 && !alias_on) v = 4;
             bool uses_self = v == 1 || v == 2 || v == 7 || v == 8;
-            FS_SCOPE("assign", pi == s && uses_self);
+            FS_SCOPE("assign", (pi == s && uses_self) || v >= 12);
             size_t plen = model[pi].size();
+            size_t slen = model[s].size();
+            size_t ak = pos_in(st.c >> 11, slen);
+            size_t an = std::min(cnt_clamp(st.c >> 23, slen - ak), slen - ak);
             size_t n = cnt_add(st.a, N);
             size_t ppos = pos_any(st.b, plen);
             size_t pcnt = cnt_clamp(st.a >> 5, plen - std::min(ppos, plen));
@@ -546,7 +549,9 @@ namespace fsw
                 case 8: t.assign(side.mv(side.at(pi))); break;
                 case 9: t.assign(arg); break;
                 case 10: t.assign(arg, apos, acnt); break;
-                default: t.assign(arg, apos); break;
+                case 11: t.assign(arg, apos); break;
+                case 12: t.assign(static_cast<const CT*>(t.data()) + ak, an); break;
+                default: t.assign(static_cast<const CT*>(t.c_str()) + ak); break;
                 }
                 return Ret();
             }, true);
@@ -707,12 +712,17 @@ namespace fsw
         void op_insert(const Step& st)
         {
             int s = st.actor % 3;
-            int pi = partner(s, st.c, true, true);
+            int pi = partner(s, st.c);
             FS_VARIANTS("idx_count_ch", "idx_ptr", "idx_ptr_count", "idx_self", "idx_self_idx_count", "idx_self_idx", "idx_string",
-                        "idx_string_idx_count", "idx_string_idx", "it_ch", "it_count_ch", "it_ilist", "it_range");
+                        "idx_string_idx_count", "idx_string_idx", "it_ch", "it_count_ch", "it_ilist", "it_range",
+                        "idx_ptr_count_alias", "idx_ptr_alias");
+            if (v == 13 && !alias_on) v = 2;
+            if (v == 14 && !alias_on) v = 1;
             bool uses_self = v >= 3 && v <= 5;
-            FS_SCOPE("insert", pi == s && uses_self);
+            FS_SCOPE("insert", (pi == s && uses_self) || v >= 13);
             size_t len = model[s].size(), room = N - std::min(len, N);
+            size_t ak = pos_in(st.c >> 11, len);                                  // own characters [ak, ak+an) as the source
+            size_t an = std::min(cnt_clamp(st.c >> 23, len - ak), len - ak);
             size_t idx = v >= 9 ? pos_in(st.a, len) : pos_any(st.a, len);
             size_t n = cnt_add(st.b, room);
             size_t plen = model[pi].size();
@@ -743,7 +753,9 @@ namespace fsw
                 case 9: { last_add = 1; auto it = t.insert(t.cbegin() + di, ch); return side.rv(static_cast<uint64_t>(it - t.begin())); }
                 case 10: { last_add = n; auto it = t.insert(t.cbegin() + di, n, ch); return side.rv(static_cast<uint64_t>(it - t.begin())); }
                 case 11: { uint64_t r = 0; last_add = 3; with_il(n, nz(ch), y, z, [&](IL il) { auto it = t.insert(t.cbegin() + di, il); r = static_cast<uint64_t>(it - t.begin()); }); return side.rv(r); }
-                default: { last_add = n; auto it = t.insert(t.cbegin() + di, lst.begin(), lst.end()); return side.rv(static_cast<uint64_t>(it - t.begin())); }
+                case 12: { last_add = n; auto it = t.insert(t.cbegin() + di, lst.begin(), lst.end()); return side.rv(static_cast<uint64_t>(it - t.begin())); }
+                case 13: last_add = an; t.insert(idx, static_cast<const CT*>(t.data()) + ak, an); break;
+                default: last_add = len - ak; t.insert(idx, static_cast<const CT*>(t.c_str()) + ak); break;
                 }
                 return Ret();
             }, true);
@@ -781,10 +793,14 @@ namespace fsw
             int s = st.actor % 3;
             int pi = partner(s, st.c);
             FS_VARIANTS("count_ch", "self", "self_pos_count", "self_pos", "string", "string_pos_count", "string_pos", "ptr_count", "ptr",
-                        "ilist", "range");
+                        "ilist", "range", "ptr_count_alias", "ptr_alias");
+            if (v == 11 && !alias_on) v = 7;
+            if (v == 12 && !alias_on) v = 8;
             bool uses_self = v >= 1 && v <= 3;
-            FS_SCOPE("append", pi == s && uses_self);
+            FS_SCOPE("append", (pi == s && uses_self) || v >= 11);
             size_t len = model[s].size(), room = N - std::min(len, N);
+            size_t ak = pos_in(st.c >> 11, len);
+            size_t an = std::min(cnt_clamp(st.c >> 23, len - ak), len - ak);
             size_t n = cnt_add(st.b, room);
             size_t plen = model[pi].size();
             size_t ppos = pos_any(st.a, plen);
@@ -810,7 +826,9 @@ namespace fsw
                 case 7: last_add = n; t.append(static_cast<const CT*>(hp.get()), n); break;
                 case 8: last_add = n; t.append(static_cast<const CT*>(hp.get())); break;
                 case 9: last_add = 3; with_il(n, nz(ch), y, z, [&](IL il) { t.append(il); }); break;
-                default: last_add = n; t.append(lst.begin(), lst.end()); break;
+                case 10: last_add = n; t.append(lst.begin(), lst.end()); break;
+                case 11: last_add = an; t.append(static_cast<const CT*>(t.data()) + ak, an); break;
+                default: last_add = len - ak; t.append(static_cast<const CT*>(t.c_str()) + ak); break;
                 }
                 return Ret();
             }, true);
@@ -820,9 +838,11 @@ namespace fsw
         {
             int s = st.actor % 3;
             int pi = partner(s, st.c);
-            FS_VARIANTS("self", "string", "ch", "ptr", "ilist");
-            FS_SCOPE("pluseq", pi == s && v == 0);
+            FS_VARIANTS("self", "string", "ch", "ptr", "ilist", "ptr_alias");
+            if (v == 5 && !alias_on) v = 3;
+            FS_SCOPE("pluseq", (pi == s && v == 0) || v == 5);
             size_t len = model[s].size(), room = N - std::min(len, N);
+            size_t ak = pos_in(st.c >> 11, len);
             size_t n = cnt_add(st.b, room);
             Str arg = mkstr(st.b, n, false);
             CT ch = mkch(st.c >> 3, LAYOUT != L_STRLEN), y = mkch(st.b >> 8, false), z = mkch(st.b >> 16, false);
@@ -836,7 +856,8 @@ namespace fsw
                 case 1: last_add = n; t += arg; break;
                 case 2: last_add = 1; t += ch; break;
                 case 3: last_add = n; t += static_cast<const CT*>(hp.get()); break;
-                default: last_add = 3; with_il(n, nz(ch), y, z, [&](IL il) { t += il; }); break;
+                case 4: last_add = 3; with_il(n, nz(ch), y, z, [&](IL il) { t += il; }); break;
+                default: last_add = len - ak; t += static_cast<const CT*>(t.c_str()) + ak; break;
                 }
                 return Ret();
             }, true);
@@ -899,14 +920,18 @@ namespace fsw
         void op_replace(const Step& st)
         {
             int s = st.actor % 3;
-            int pi = partner(s, st.c, true, true);
+            int pi = partner(s, st.c);
             FS_VARIANTS("pos_count_self", "it_it_self", "pos_count_self_pos_count", "pos_count_self_pos", "pos_count_string", "it_it_string",
                         "pos_count_string_pos_count", "pos_count_string_pos", "pos_count_ptr_count", "it_it_ptr_count", "pos_count_ptr",
-                        "it_it_ptr", "pos_count_count_ch", "it_it_count_ch", "it_it_ilist", "it_it_range");
+                        "it_it_ptr", "pos_count_count_ch", "it_it_count_ch", "it_it_ilist", "it_it_range",
+                        "pos_count_ptr_count_alias", "it_it_ptr_count_alias", "pos_count_ptr_alias", "it_it_ptr_alias");
+            if (v >= 16 && !alias_on) v -= 8;
             bool uses_self = v <= 3;
-            bool its = v == 1 || v == 5 || v == 9 || v == 11 || v >= 13;
-            FS_SCOPE("replace", pi == s && uses_self);
+            bool its = v == 1 || v == 5 || v == 9 || v == 11 || (v >= 13 && v <= 15) || v == 17 || v == 19;
+            FS_SCOPE("replace", (pi == s && uses_self) || v >= 16);
             size_t len = model[s].size();
+            size_t ak = pos_in(st.c >> 21, len);
+            size_t an = std::min(cnt_clamp(st.c >> 33, len - ak), len - ak);
             size_t pos = its ? pos_in(st.a, len) : pos_any(st.a, len);
             size_t cnt = cnt_clamp(st.a >> 11, len - std::min(pos, len));
             size_t first = pos_in(st.a, len);
@@ -950,7 +975,11 @@ namespace fsw
                 case 12: t.replace(pos, cnt, n, ch); break;
                 case 13: t.replace(f, l, n, ch); break;
                 case 14: last_add = 3; with_il(n, nz(ch), y, z, [&](IL il) { t.replace(f, l, il); }); break;
-                default: t.replace(f, l, lst.begin(), lst.end()); break;
+                case 15: t.replace(f, l, lst.begin(), lst.end()); break;
+                case 16: last_add = an; t.replace(pos, cnt, static_cast<const CT*>(t.data()) + ak, an); break;
+                case 17: last_add = an; t.replace(f, l, static_cast<const CT*>(t.data()) + ak, an); break;
+                case 18: last_add = len - ak; t.replace(pos, cnt, static_cast<const CT*>(t.c_str()) + ak); break;
+                default: last_add = len - ak; t.replace(f, l, static_cast<const CT*>(t.c_str()) + ak); break;
                 }
                 return Ret();
             }, true);
